@@ -526,8 +526,21 @@ def SiblingCombines(rng):
                                                               ('col1', Var('z'))])]))])),
        Unify(Var('t'), AggE('Min', Var('z'), [Atom('V', [('col0', x), ('col1', Var('z'))])]))],
       True)])
-  return Prog([T, U, V, P, Q, R]), ['P', 'Q', 'R'], ['fam_sibling_combines',
-                                                      'fam_shared_local']
+  # two nested combines of different parents introduce a local of one name,
+  # which is also the name of a local of a sibling at the top
+  def Inner(outer):
+    return Unify(Var('m'), AggE('Max', Var('z'),
+                                [Atom('V', [('col0', outer), ('col1', Var('z'))])]))
+  N2 = Pred('N2', [Rule(
+      [('col0', x, ''), ('s', Var('s'), ''), ('t', Var('t'), ''), ('u', Var('u'), '')],
+      [Atom('T', [('col0', x)]),
+       Unify(Var('s'), AggE('Sum', Op('+', y, Var('m')),
+                            [Atom('U', [('col0', x), ('col1', y)]), Inner(y)])),
+       Unify(Var('t'), AggE('Sum', Op('*', Var('w'), Var('m')),
+                            [Atom('U', [('col0', Var('w')), ('col1', x)]), Inner(Var('w'))])),
+       Unify(Var('u'), AggE('Min', Var('z'), [Atom('U', [('col0', x), ('col1', Var('z'))])]))])])
+  return Prog([T, U, V, P, Q, R, N2]), ['P', 'Q', 'R', 'N2'], ['fam_sibling_combines',
+                                                              'fam_shared_local']
 
 def DupDisjuncts(rng):
   """Alternatives of one disjunction that are equal, or equal up to the order
